@@ -40,6 +40,15 @@ class OpaqueVal:
             self._isinst[key] = core.sym_bool(f"isinstance({self._name},{'|'.join(getattr(x, '__name__', str(x)) for x in key)})")
         return self._isinst[key]
 
+    def pyvc_hasattr(self, name):
+        """whether the library value has the attribute: unknown, but one answer per name (an attribute already read exists)"""
+        if name in self._attrs:
+            return True
+        h = self.__dict__.setdefault("_has", {})
+        if name not in h:
+            h[name] = core.sym_bool(f"hasattr({self._name},{name})")
+        return h[name]
+
     def pyvc_iter(self, I):
         k = cur().choose([("empty", None), ("one_generic_element", None)], f"iter({self._name})")
         return [] if k == 0 else [OpaqueVal(f"{self._name}[i]")]
